@@ -13,6 +13,12 @@ SHAPE = {
     "T": ["v", "c", "c2", "l", "d"],
 }
 KEYS = ["a", "b", "k0", "0", "x.y", "é"]
+# classes of vpk_c13 (index = `cls` of the model's node); a disguised class has the parameters of its base
+# and objects that are falsy (empty container / __bool__ False) or equal by content
+CLASS_ORDER = ["N", "M", "P", "T", "NZ", "NQ", "MB", "PZ", "PB", "PQ", "TZ"]
+BASE = dict(N="N", M="M", P="P", T="T", NZ="N", NQ="N", MB="M", PZ="P", PB="P", PQ="P", TZ="T")
+VARIANTS = dict(N=["NZ", "NQ"], M=["MB"], P=["PZ", "PB", "PQ"], T=["TZ"])
+DISGUISE = dict(NZ="empty", NQ="by-content", MB="false", PZ="empty", PB="false", PQ="by-content", TZ="empty")
 
 
 def default(f):
@@ -23,11 +29,17 @@ def default(f):
 # ------------------------------------------------------------------ generator
 def gen_case(rng):
     n_free = rng.choice([0, 1, 2, 3, 4, 5, 6, 8, 10, 12])
-    nodes = [dict(cls="T", fields=[], pre=[], init=[])]
+    # how often a class is replaced by a disguised one (objects falsy / equal by content)
+    odd = rng.choice([0.0, 0.0, 0.25, 0.5, 1.0])
+
+    def pick(base):
+        return rng.choice(VARIANTS[base]) if rng.random() < odd else base
+
+    nodes = [dict(cls=pick("T"), fields=[], pre=[], init=[])]
     for _ in range(n_free):
-        nodes.append(dict(cls=rng.choices(["N", "M", "P"], [5, 2, 3])[0], fields=[], pre=[], init=[]))
+        nodes.append(dict(cls=pick(rng.choices(["N", "M", "P"], [5, 2, 3])[0]), fields=[], pre=[], init=[]))
     n = len(nodes)
-    pres = [i for i in range(n) if nodes[i]["cls"] == "P"]
+    pres = [i for i in range(n) if BASE[nodes[i]["cls"]] == "P"]
     back = rng.choice([0.0, 0.0, 0.05, 0.15, 0.4])       # probability of an arbitrary (possibly backward) reference
 
     def ref(i):
@@ -42,7 +54,7 @@ def gen_case(rng):
         return dict(t="list", v=[r for r in (ref(i) for _ in range(rng.choice([0, 1, 1, 2, 3]))) if r["t"] == "ref"])
 
     for i, nd in enumerate(nodes):
-        for f in SHAPE[nd["cls"]]:
+        for f in SHAPE[BASE[nd["cls"]]]:
             val = default(f)
             if rng.random() < (0.8 if i == 0 else 0.55):
                 if f == "v":
@@ -155,8 +167,8 @@ def govalue(v):
 
 
 def gnode(nd):
-    return "(Build_node 0%%nat %s %s %s None false)" % (
-        glist(f"(F {gstr(k)} {gvalue(v)})" for k, v in nd["fields"]),
+    return "(Build_node %s %s %s %s None false)" % (
+        gnat(CLASS_ORDER.index(nd["cls"])), glist(f"(F {gstr(k)} {gvalue(v)})" for k, v in nd["fields"]),
         glist(gnat(x) for x in nd["pre"]), glist(gnat(x) for x in nd["init"]))
 
 
@@ -227,6 +239,16 @@ def check_posts(tag, nodes, expected, log, out, data):
             return
 
 
+def check_ran(tag, nodes, log, out, data):
+    """a lightweight task / the task body runs on the object built from its configuration: every parameter set"""
+    for e in log:
+        if e["k"] != "post" and e["obj"] >= 0 and e["set"] != [k for k, _ in nodes[e["obj"]]["fields"]]:
+            out.append(dict(key=f"C13:{tag}:task-ran-blank",
+                            what="a task ran on an object whose parameters were not (all) set",
+                            data=dict(data, node=e["obj"], kind=e["k"], set=e["set"])))
+            return
+
+
 def oracle(case):
     out = []
     nodes = case["nodes"]
@@ -247,6 +269,7 @@ def oracle(case):
         if sorted(execs) != sorted(want):
             out.append(dict(key="C13:instance:pretasks-once", what="pre-tasks not executed exactly once each",
                             data=dict(data, executed=execs, expected=sorted(want))))
+        check_ran("instance", nodes_a, log, out, data)
         kinds = [e["k"] for e in log]
         if "exec" in kinds and "post" in kinds[kinds.index("exec"):]:
             out.append(dict(key="C13:instance:order", what="a pre-task ran before an object was initialised", data=data))
@@ -259,6 +282,7 @@ def oracle(case):
     expected = reachable(nodes, case["root"], True)
     check_objects("params", nodes, expected, b["objects"], out, data)
     check_posts("params", nodes, expected, b["log"], out, data)
+    check_ran("params", nodes, b["log"], out, data)
     pre = set()
     for n in expected:
         pre.update(nodes[n]["pre"])
@@ -353,6 +377,8 @@ def run(c: Check):
               "shared at random, back edges with probability 0-0.4 per reference (cycles), lists, dicts, nested "
               "lists, pre-tasks at any node (shared, repeated), init tasks at the root (15% with repetitions / "
               "overlap with pre-tasks), 30% with a first instance() call on another node sharing the ObjectStore; "
+              "classes replaced with probability 0/0.25/0.5/1 per case by disguised ones whose objects are falsy "
+              "(__len__ 0, __bool__ False) or equal/hashed by content (NZ NQ MB PZ PB PQ TZ); "
               "each case goes through instance() and through the parameter file; non-trivial = a shared "
               "configuration or a cycle, and at least one pre-task; distinct by heap")
     c.build()
@@ -397,6 +423,18 @@ def run(c: Check):
         c.count(f"init={len(nodes[case['root']]['init'])}")
         c.count("first-call" if case.get("first") is not None else "single-call")
         c.count(f"pretask-holders={sum(1 for i in reach if nodes[i]['pre'])}")
+        kinds = {DISGUISE.get(nodes[i]["cls"], "plain") for i in reach}
+        c.count("objects:" + ("plain-only" if kinds == {"plain"} else "some-disguised"))
+        for i in reach:
+            c.count("cls:" + nodes[i]["cls"])
+        reach_a = reachable(nodes, case["root"], False)
+        pre_a = {p for i in reach_a for p in nodes[i]["pre"]}
+        if any(DISGUISE.get(nodes[p]["cls"]) in ("empty", "false") for p in pre_a):
+            c.count("falsy-pretask")
+        if case.get("first") is not None and any(
+                DISGUISE.get(nodes[i]["cls"]) in ("empty", "false")
+                for i in reach_a & reachable(nodes, case["first"], False)):
+            c.count("falsy-object-met-by-two-instance-calls")
         if (shared or cyc) and haspre:
             c.nontrivial.add(json.dumps(nodes, sort_keys=True))
         for v in oracle(case):
